@@ -16,6 +16,7 @@ ALL = {
     "ThermoSrc": thermo.gen_thermo,
     "LibIO": libio.gen_libio,
     "Persist": persist.gen_persist,
+    "PersistSrc": persist.gen_persist_src,
     "Sampling": sampling.gen_sampling,
     "Storage": storage.gen_storage,
 }
